@@ -13,6 +13,9 @@ def main():
         print("usage: run.py <Cxx> quick|thorough")
         return 2
     pid, tier = sys.argv[1], sys.argv[2]
+    if "--replay" in sys.argv:
+        from vlib import replay
+        return replay.run(pid, sys.argv[sys.argv.index("--replay") + 1])
     os.environ.setdefault("VERIF_TIER", tier)
     mod = importlib.import_module("vlib.checks." + pid.lower())
     try:
